@@ -52,7 +52,7 @@ ASSUMPTIONS = [
 def check(ctx):
     cls = ctx.P.public_class("skchange.anomaly_detectors", "MVCAPA")
     pred = ctx.P.lookup_method(cls, "_predict")
-    fac = [f for f in _reach(ctx, pred).values() if f.cls is None and "anomalies" in f.params and "saving" in f.params[0]]
+    fac = [f for f in _reach(ctx, pred).values() if f.cls is None and any("anomal" in q for q in f.params) and any("saving" in q for q in f.params) and any("alpha" in q or "penalt" in q for q in f.params)]
     if len(fac) != 1:
         ctx.undecided("C16.a SUBSET-NF", "helper", pred.loc(), f"expected one subset-inference helper (saving, anomalies, alpha, betas), found {[f.name for f in fac]}")
         return
@@ -221,7 +221,9 @@ def check_roles(ctx, cls, pred, helper):
         return
     n, pp = lift(N), lift(Pdim)
     for e in comp:
-        b = e.data["bound"]
+        from .common import flatten_records
+
+        b = flatten_records(e.data["bound"])
         vals = list(b.values())
         lst = [v for v in vals if isinstance(v, ListV)]
         role = getattr(lst[0], "role", None) if lst else None
@@ -229,7 +231,7 @@ def check_roles(ctx, cls, pred, helper):
         al = [v for k, v in b.items() if "alpha" in k]
         be = [v for k, v in b.items() if "beta" in k]
         if role not in ("collective", "point") or not sv or not al or not be:
-            ctx.violation(rule, "arguments", e.loc(), "subset inference is not called with (saving, anomalies, alpha, betas)", found={k: valkey(v)[:50] for k, v in b.items()})
+            ctx.undecided(rule, "arguments", e.loc(), "the arguments of the subset inference cannot be matched with (saving, anomalies, alpha, betas) by kind and name", found={k: valkey(v)[:50] for k, v in b.items()})
             continue
         ctx.check(sv[0].key == f"{role}_saving", rule, f"{role}|saving", e.loc(), f"{role} anomalies are scored with the {role} saving", found=sv[0].key)
         ka = single_atom(al[0].nf) if isinstance(al[0], Num) and al[0].nf is not None else None
@@ -314,10 +316,16 @@ def check_dense(ctx):
         start_open = end_closed = None
         for c, v in p.facts:
             if c.t[0] == "opq" and "closed" in c.key:
-                if "neither" in c.key and "right" in c.key:
+                # a membership test of `closed` in a two-element list: the list or its complement
+                words = {w for w in ("left", "right", "both", "neither") if f"'{w}'" in c.key or f'"{w}"' in c.key or f"({w}" in c.key or f",{w}" in c.key or f" {w}" in c.key or w in c.key.replace("closed", "")}
+                if words == {"neither", "right"}:
                     start_open = v
-                if "both" in c.key and "right" in c.key:
+                elif words == {"left", "both"}:
+                    start_open = not v
+                elif words == {"both", "right"}:
                     end_closed = v
+                elif words == {"left", "neither"}:
+                    end_closed = not v
         want_lo, want_hi = (1 if start_open else 0), (1 if end_closed else 0)
         ok = ok and lo_k.count("Add(") == want_lo and hi_k.count("Add(") == want_hi
         # the adjustment is by exactly one position
